@@ -308,6 +308,10 @@ func projectObj(o any) J {
 		return projectSig(v)
 	case *cose.Countersignature:
 		return projectSig((*cose.Signature)(v))
+	case *cose.ProtectedHeader:
+		return J{"P": projectBucket(*v), "Pnil": *v == nil}
+	case *cose.UnprotectedHeader:
+		return J{"U": projectBucket(*v), "Unil": *v == nil}
 	}
 	return J{"unknown": fmt.Sprintf("%T", o)}
 }
@@ -323,6 +327,10 @@ func marshalObj(o any) ([]byte, error) {
 	case *cose.Signature:
 		return v.MarshalCBOR()
 	case *cose.Countersignature:
+		return v.MarshalCBOR()
+	case *cose.ProtectedHeader:
+		return v.MarshalCBOR()
+	case *cose.UnprotectedHeader:
 		return v.MarshalCBOR()
 	}
 	return nil, fmt.Errorf("marshalObj: %T", o)
@@ -340,6 +348,10 @@ func newOfKind(kind string) any {
 		return &cose.Signature{}
 	case "csig":
 		return &cose.Countersignature{}
+	case "prot":
+		return &cose.ProtectedHeader{}
+	case "unprot":
+		return &cose.UnprotectedHeader{}
 	}
 	fatal("newOfKind %q", kind)
 	return nil
@@ -356,6 +368,10 @@ func unmarshalInto(o any, b []byte) error {
 	case *cose.Signature:
 		return v.UnmarshalCBOR(b)
 	case *cose.Countersignature:
+		return v.UnmarshalCBOR(b)
+	case *cose.ProtectedHeader:
+		return v.UnmarshalCBOR(b)
+	case *cose.UnprotectedHeader:
 		return v.UnmarshalCBOR(b)
 	}
 	return fmt.Errorf("unmarshalInto: %T", o)
@@ -446,6 +462,20 @@ func (w *world) step(st J) J {
 				w.bufs[str(st["buf"])] = b
 			}
 			err = unmarshalInto(o, b)
+			// reference: the same bytes decoded into a fresh variable (history-freedom is judged against it)
+			obs["fresh"] = J{}
+			obs["freshres"] = "n/a"
+			if st["withfresh"] == true {
+				f := newOfKind(str(st["kind"]))
+				cp := append([]byte{}, b...)
+				ferr := unmarshalInto(f, cp)
+				obs["freshres"] = okErr(ferr)
+				if ferr == nil {
+					obs["fresh"] = projectObj(f)
+				}
+			}
+		case "zero":
+			w.objs[name] = newOfKind(str(st["kind"]))
 		case "setpayload":
 			p := payloadOf(st["payload"])
 			switch o := w.objs[name].(type) {
